@@ -21,14 +21,14 @@ theorem next_cons_plain (b : UInt8) (r : List UInt8) (line col : Int) (off : Nat
 def escapeTable : List (UInt8 × UInt8) :=
   [(97, 7), (98, 8), (102, 12), (110, 10), (114, 13), (116, 9), (118, 11), (92, 92), (34, 34), (39, 39)]
 
-theorem escape_denotes (c v : UInt8) (hm : (c, v) ∈ escapeTable) (buf : Buf) (r : List UInt8)
+theorem escapeCore_denotes (c v : UInt8) (hm : (c, v) ∈ escapeTable) (buf : Buf) (r : List UInt8)
     (line col : Int) (off : Nat) :
-    scanEscape buf { rest := c :: r, line := line, col := col, off := off } =
+    scanEscapeCore buf { rest := c :: r, line := line, col := col, off := off } =
       (buf ++ [v], { rest := r, line := line, col := col + 1, off := off + 1 }) := by
   simp only [escapeTable, List.mem_cons, Prod.mk.injEq, List.mem_nil_iff, or_false] at hm
   rcases hm with ⟨rfl, rfl⟩ | ⟨rfl, rfl⟩ | ⟨rfl, rfl⟩ | ⟨rfl, rfl⟩ | ⟨rfl, rfl⟩ | ⟨rfl, rfl⟩ | ⟨rfl, rfl⟩ | ⟨rfl, rfl⟩ | ⟨rfl, rfl⟩ | ⟨rfl, rfl⟩
   all_goals
-    unfold scanEscape
+    unfold scanEscapeCore
     rw [next_cons_plain _ _ _ _ _ (by decide) (by decide)]
     simp
 
@@ -43,7 +43,7 @@ theorem isDecimal_of (b : UInt8) (h : IsDig b) : isDecimal (b.toNat : Int) = tru
 
 theorem decimal_escape3 (d1 d2 d3 : UInt8) (h1 : IsDig d1) (h2 : IsDig d2) (h3 : IsDig d3)
     (buf : Buf) (r : List UInt8) (line col : Int) (off : Nat) :
-    scanEscape buf { rest := d1 :: d2 :: d3 :: r, line := line, col := col, off := off } =
+    scanEscapeCore buf { rest := d1 :: d2 :: d3 :: r, line := line, col := col, off := off } =
       (buf ++ [byteOf (((d1.toNat - 48) * 100 + (d2.toNat - 48) * 10 + (d3.toNat - 48) : Nat) : Int)],
        { rest := r, line := line, col := col + 1 + 1 + 1, off := off + 1 + 1 + 1 }) := by
   have n1 := isDig_ne d1 h1
@@ -52,7 +52,7 @@ theorem decimal_escape3 (d1 d2 d3 : UInt8) (h1 : IsDig d1) (h2 : IsDig d2) (h3 :
   have hne : ∀ k : Int, (k < 48 ∨ 57 < k) → ¬ ((d1.toNat : Int) = k) := by
     intro k hk; unfold IsDig at h1; omega
   have hd : (48 : Int) ≤ (d1.toNat : Int) ∧ (d1.toNat : Int) ≤ 57 := by unfold IsDig at h1; omega
-  unfold scanEscape
+  unfold scanEscapeCore
   rw [next_cons_plain _ _ _ _ _ n1.1 n1.2]
   simp only []
   rw [if_neg (hne 97 (by decide)), if_neg (hne 98 (by decide)), if_neg (hne 102 (by decide)),
@@ -65,6 +65,52 @@ theorem decimal_escape3 (d1 d2 d3 : UInt8) (h1 : IsDig d1) (h2 : IsDig d2) (h3 :
   have e : (((d1.toNat : Int) - 48).toNat * 10 + ((d2.toNat : Int) - 48).toNat) * 10 + ((d3.toNat : Int) - 48).toNat
       = (d1.toNat - 48) * 100 + (d2.toNat - 48) * 10 + (d3.toNat - 48) := by omega
   rw [e]
+
+/-- the decimal value of three digits, as computed by the `\ddd` loop. -/
+theorem escDigits3 (d1 d2 d3 : UInt8) (h1 : IsDig d1) (h2 : IsDig d2) (h3 : IsDig d3)
+    (r : List UInt8) (line col : Int) (off : Nat) :
+    (next { rest := d1 :: d2 :: d3 :: r, line := line, col := col, off := off }).1 = (d1.toNat : Int) ∧
+    escDigits 2 ((d1.toNat : Int) - 48).toNat
+        (next { rest := d1 :: d2 :: d3 :: r, line := line, col := col, off := off }).2 =
+      ((d1.toNat - 48) * 100 + (d2.toNat - 48) * 10 + (d3.toNat - 48),
+       { rest := r, line := line, col := col + 1 + 1 + 1, off := off + 1 + 1 + 1 }) := by
+  have n1 := isDig_ne d1 h1
+  have n2 := isDig_ne d2 h2
+  have n3 := isDig_ne d3 h3
+  rw [next_cons_plain _ _ _ _ _ n1.1 n1.2]
+  refine ⟨rfl, ?_⟩
+  simp only [escDigits, peek, isDecimal_of d2 h2, isDecimal_of d3 h3, if_true,
+    next_cons_plain _ _ _ _ _ n2.1 n2.2, next_cons_plain _ _ _ _ _ n3.1 n3.2]
+  unfold IsDig at h1 h2 h3
+  have e : (((d1.toNat : Int) - 48).toNat * 10 + ((d2.toNat : Int) - 48).toNat) * 10 + ((d3.toNat : Int) - 48).toNat
+      = (d1.toNat - 48) * 100 + (d2.toNat - 48) * 10 + (d3.toNat - 48) := by omega
+  rw [e]
+
+theorem escTooLarge3 (d1 d2 d3 : UInt8) (h1 : IsDig d1) (h2 : IsDig d2) (h3 : IsDig d3)
+    (r : List UInt8) (line col : Int) (off : Nat) :
+    escTooLarge { rest := d1 :: d2 :: d3 :: r, line := line, col := col, off := off } =
+      decide ((d1.toNat - 48) * 100 + (d2.toNat - 48) * 10 + (d3.toNat - 48) > 255) := by
+  obtain ⟨e1, e2⟩ := escDigits3 d1 d2 d3 h1 h2 h3 r line col off
+  unfold escTooLarge
+  rw [e1, e2]
+  have : (48 : Int) ≤ (d1.toNat : Int) ∧ (d1.toNat : Int) ≤ 57 := by unfold IsDig at h1; omega
+  simp [this.1, this.2]
+
+/-- an escape of the manual's table is never "too large". -/
+theorem escape_denotes (c v : UInt8) (hm : (c, v) ∈ escapeTable) (buf : Buf) (r : List UInt8)
+    (line col : Int) (off : Nat) :
+    scanEscape buf { rest := c :: r, line := line, col := col, off := off } =
+      .ok (buf ++ [v], { rest := r, line := line, col := col + 1, off := off + 1 }) := by
+  have hc := escapeCore_denotes c v hm buf r line col off
+  have hnot : escTooLarge { rest := c :: r, line := line, col := col, off := off } = false := by
+    simp only [escapeTable, List.mem_cons, Prod.mk.injEq, List.mem_nil_iff, or_false] at hm
+    rcases hm with ⟨rfl, rfl⟩ | ⟨rfl, rfl⟩ | ⟨rfl, rfl⟩ | ⟨rfl, rfl⟩ | ⟨rfl, rfl⟩ | ⟨rfl, rfl⟩ | ⟨rfl, rfl⟩ | ⟨rfl, rfl⟩ | ⟨rfl, rfl⟩ | ⟨rfl, rfl⟩
+    all_goals
+      unfold escTooLarge
+      rw [next_cons_plain _ _ _ _ _ (by decide) (by decide)]
+      simp
+  unfold scanEscape
+  simp only [hnot, Bool.false_eq_true, if_false, hc]
 
 def Plain (b : UInt8) : Prop := b ≠ 10 ∧ b ≠ 13
 
